@@ -294,7 +294,9 @@ def access(rep, f, c, names):
                         lits = [q.get("v") for q in walk(p) if q.get("k") == "PLit" and q.get("lk") == "str"]
                         if not lits:
                             continue
-                        hard |= set(lits)
+                        refs = set(x["path"].split("::")[-1] for x in walk(arm["body"]) if kind(x) == "Path" and x.get("res") == "def"
+                                   and x.get("path", "").startswith(U + "::") and x.get("dk") == "Fn")
+                        hard |= set(l for l in lits if l not in refs)
                         for x in walk(arm["body"]):
                             if kind(x) == "Path" and x.get("res") == "def" and x.get("path", "").startswith(U + "::") \
                                     and x.get("dk") == "Fn" and x["path"].count("::") == 2:
@@ -311,6 +313,10 @@ def access(rep, f, c, names):
     # hard-wired arms that are themselves property names must refer to the same function (checked above);
     # names hard-wired to non-unicode behaviour are a collision
     r.instance("collisions", "", str(clash))
+    for nm in clash:
+        r.violation("shadowed:" + nm, "", "the VM answers the advertised property name %s from a hard-wired arm instead "
+                    "of unicode::by_name: for code points where that arm and the property table differ, the VM disagrees "
+                    "with the function, by_name and generated code" % nm)
     # positive control for the arm matcher
     ctl = {"k": "Match", "arms": [{"pat": {"k": "PLit", "lk": "str", "v": "UPPERCASE_LETTER"},
                                    "body": {"k": "Path", "res": "def", "dk": "Fn", "path": U + "::UPPERCASE"}}]}
